@@ -159,6 +159,13 @@ fn get_text_edit_range_in_string(
         end_offset -= 1;
     }
 
+    // a lone quote (unterminated string) leaves no content, and the edit has to contain
+    // the cursor: no completion when the cursor sits outside the string content
+    let position = u32::from(builder.position_offset);
+    if end_offset < start_offset || position < start_offset || position > end_offset {
+        return None;
+    }
+
     let new_text_range = TextRange::new(start_offset.into(), end_offset.into());
 
     builder
